@@ -33,7 +33,7 @@ MANIFEST = {
               "Text preservation per line (split_lines) is not claimed."),
     "note": ("Trusted: rustc front end; html_escape::encode_text escapes &, <, > for XML text; the format_args decoder; the tag "
              "automaton in this file. Not decided: split_lines / CR handling / widths; characters not representable in XML."),
-    "technique": "static analysis: taint (source/sanitiser/sink) over resolved HIR, sibling agreement of class tables, template extraction with a tag-balance abstract interpretation over structured control flow",
+    "technique": "static analysis: taint (source/sanitiser/sink) over resolved HIR, sibling agreement of class tables, template extraction with a tag-balance abstract interpretation over structured control flow, abstract evaluation of split_lines against a line model and of the invert pre-pass per case",
 }
 
 V = "anstyle_svg::"
